@@ -4,6 +4,8 @@ for any back-end satisfying `FpRefines`.
 -/
 import SqiProofs.GfFp2Field
 
+set_option linter.unusedSectionVars false
+
 namespace SqiProofs.GfFp2
 open SqiModel.Gf
 open scoped QuadraticAlgebra
